@@ -94,6 +94,8 @@ class Bench:
         self.error: str | None = None
         self.stuck = False
         self.teardown = False
+        self.notes: dict[str, int] = {}
+        self.used = 0  # choices consumed
 
     # ---- log
     def emit(self, req: str, reply: str | None = None) -> int:
@@ -109,6 +111,8 @@ class Bench:
         if k is not None:
             self.lines[k][1] = out
             self.open[i] = None
+            if k == len(self.lines) - 1:
+                self.emit(f"pc {i}")  # probe of the state reached (only when nothing was logged since)
 
     def me(self) -> int:
         return self.index[id(asyncio.current_task())]
@@ -136,6 +140,10 @@ class Bench:
                 return
             if self.in_src == i:
                 return  # resumes inside the source: the source logs what happens
+            if self.delivered[i] and self.lock is not None:
+                queued = any(t is who for t, _ in self.lock._waiters)
+                k = "cancelled_waiter_removes_itself" if queued else "cancelled_waiter_dropped_by_release"
+                self.notes[k] = self.notes.get(k, 0) + 1
             self.open[i] = self.emit_ev(i, f"step {i}")
 
     def after_handle(self, kind: str, who: Any, handle: Any) -> None:
@@ -311,6 +319,7 @@ class Bench:
                 break
             c = (self.choices[k] if k < len(self.choices) else 0) % len(acts)
             k += 1
+            self.used = k
             self.decisions += 1
             a = acts[c]
             self.actions.append(" ".join(str(x) for x in a))
@@ -387,17 +396,16 @@ def run_one(case: dict) -> Bench:
 
 
 def branch_hist(b: Bench, rep: list[str], hist: dict) -> None:
-    probe = None
-    for (req, exp), got in zip(b.lines, rep):
+    """event @ suspension point before (+c = scope cancelled) -> outcome > suspension point after"""
+    n = len(b.lines)
+    for j, ((req, exp), got) in enumerate(zip(b.lines, rep)):
         w = req.split()
-        if w[0] == "pc":
-            probe = got
+        if w[0] in ("pc", "new", "obs", "obs_calls"):
             continue
-        if w[0] in ("new", "obs", "obs_calls"):
-            continue
-        k = f"{w[0]}@{probe}->{exp.split()[0]}"
+        pre = rep[j - 1] if j > 0 and b.lines[j - 1][0].startswith("pc ") else "?"
+        post = rep[j + 1] if j + 1 < n and b.lines[j + 1][0].startswith("pc ") else ""
+        k = f"{w[0]}@{pre}->{exp.split()[0]}" + (f">{post}" if post and w[0] in ("next", "step") else "")
         hist[k] = hist.get(k, 0) + 1
-        probe = None
 
 
 def check_batch(benches: list[Bench], res: Result) -> None:
@@ -416,7 +424,9 @@ def check_batch(benches: list[Bench], res: Result) -> None:
         st["runs_" + b.mode] = st.get("runs_" + b.mode, 0) + 1
         st["cancels_applied"] = st.get("cancels_applied", 0) + b.cancels_applied
         st["cancelled_calls"] = st.get("cancelled_calls", 0) + sum(b.ncanc)
-        case = dict(b.case)
+        case = dict(b.case, choices=b.choices[:b.used])
+        for kk, vv in b.notes.items():
+            st[kk] = st.get(kk, 0) + vv
         bad = oracle(b)
         if bad:
             res.violations.append(Violation(case, "tee under cancellation: " + bad,
@@ -479,7 +489,7 @@ def run_cases(ctx: Ctx, res: Result, t_end: float, corpus: list | None = None) -
              for (n, L, e) in ((1, 1, 0), (2, 2, 0), (2, 0, 1), (2, 1, 1), (3, 2, 0))
              for m in ("sync", "gate", "sleep")]
     todo: list[tuple[dict, list[int]]] = [(cfg, [ctx.rng.randint(0, 5) for _ in range(120)]) for cfg in fixed]
-    nbase = ctx.n(40, 2000)
+    nbase = ctx.n(400, 20000)  # cut by the time budget
     k = 0
     while time.time() < t_end and (todo or k < nbase):
         if todo:
